@@ -294,6 +294,101 @@ def check_parallel_evaluator(h: Harness):
                        f"(expected {n} <= total < {n + m}), the tracker reports {counted} evaluations", {"m": m, "n": n})
 
 
+def check_parallel_evaluator_all_algorithms(h: Harness):
+    """... and for random search, (1+1) and GP on the parallel evaluator: the number of evaluations between two budget checks is
+    what the property says it is (1, 1, the population size), whatever the evaluator would like to be handed"""
+    import os
+    import tempfile
+    from geneticengine.evaluation.parallel import ParallelEvaluator
+    from props.eval_common import FileLog, logging_ff
+    rng = h.rng
+    cases = [("rs", 1, 1), ("rs", 1, 5), ("opo", 1, 3), ("gp", 3, 7)] if not h.thorough else \
+        [("rs", 1, 1), ("rs", 1, 5), ("rs", 1, 11), ("opo", 1, 1), ("opo", 1, 3), ("gp", 3, 7), ("gp", 2, 5), ("gp", 4, 4)]
+    with tempfile.TemporaryDirectory(prefix="c14par2-") as tmp:
+        for j, (algo, m, n) in enumerate(cases):
+            log = FileLog(os.path.join(tmp, f"{algo}-{j}.log"))
+            keys = [rng.randint(0, 30) for _ in range(60)]
+            problem = SingleObjectiveProblem(logging_ff(log, 0, lambda k: float(k)), minimize=False)
+            tracker = SingleObjectiveProgressTracker(problem, ParallelEvaluator())
+            budget = AnyOf(EvaluationBudget(n), CheckCapBudget(6 * n + 20))
+            random = NativeRandomSource(rng.randrange(10**6))
+            if algo == "rs":
+                alg, name = RandomSearch(problem, budget, ScriptRep(keys), random, tracker), "RandomSearch"
+            elif algo == "opo":
+                alg, name = OnePlusOne(problem, budget, MutationOnlyRep(keys), random, tracker), "OnePlusOne"
+            else:
+                alg, name = GeneticProgramming(problem, budget, ScriptRep(keys), random, tracker, population_size=m), f"GeneticProgramming(population_size={m})"
+            try:
+                alg.search()
+            except Exception as e:  # noqa: BLE001
+                h.notes.append(f"parallel {name} raised {type(e).__name__}: {e}")
+                continue
+            total = len(log.read())
+            counted = tracker.get_number_evaluations()
+            h.seen(f"parallel-{algo}:{m}:{n}")
+            h.count("parallel-runs-other-algorithms")
+            if not (n <= total < n + m) or counted != total:
+                h.fail(f"{name.split('(')[0]}.search[ParallelEvaluator]", "stops-late-or-early",
+                       f"{name} with EvaluationBudget({n}) on the parallel evaluator: the fitness function was invoked {total} times "
+                       f"(expected {n} <= total < {n + m}), the tracker reports {counted} evaluations", {"algo": algo, "m": m, "n": n})
+
+
+def check_deep_minimum_grammars(h: Harness):
+    """searches over REAL tree programs of a grammar whose smallest program is 3 or 4 levels deep (the initialisers start at depth 1
+    and must work their way up): the search starts, and stops at the first check after the budget -- within a time no search of
+    a dozen evaluations needs"""
+    import signal
+    import deepgrammar
+    from geneticengine.grammar.grammar import extract_grammar
+    from geneticengine.representations.tree.initializations import MaxDepthDecider
+    from geneticengine.representations.tree.operators import (FullInitializer, GrowInitializer, InjectInitialPopulationWrapper,
+                                                              PositionIndependentGrowInitializer)
+    from geneticengine.representations.tree.treebased import TreeBasedRepresentation
+
+    class Timeout(Exception):
+        pass
+
+    def on_alarm(signum, frame):
+        raise Timeout()
+
+    nodes = deepgrammar.nodes
+    rng = h.rng
+    for (classes, start) in deepgrammar.GRAMMARS:
+        g = extract_grammar(classes, start)
+        mind = g.get_min_tree_depth()
+        for ini_name in ("grow", "pigrow", "inject(0)+grow", "full"):
+            pop, n = rng.choice([(2, 3), (3, 7), (4, 4)])
+            r = NativeRandomSource(rng.randrange(10**6))
+            rep = TreeBasedRepresentation(g, MaxDepthDecider(r, g, 6))
+            ini = {"grow": lambda: GrowInitializer(), "pigrow": lambda: PositionIndependentGrowInitializer(5),
+                   "inject(0)+grow": lambda: InjectInitialPopulationWrapper([], GrowInitializer()), "full": lambda: FullInitializer(5)}[ini_name]()
+            problem = SingleObjectiveProblem(lambda p: float(nodes(p)), minimize=False)
+            tracker = SingleObjectiveProgressTracker(problem, SequentialEvaluator())
+            alg = GeneticProgramming(problem, EvaluationBudget(n), rep, r, tracker, population_size=pop, population_initializer=ini)
+            desc = (f"GeneticProgramming(population_size={pop}, EvaluationBudget({n}), initializer={ini_name}) over real trees of a grammar whose smallest "
+                    f"program has depth {g.get_min_tree_depth()}")
+            old = signal.signal(signal.SIGALRM, on_alarm)
+            signal.alarm(20)
+            try:
+                alg.search()
+                total = tracker.get_number_evaluations()
+            except Timeout:
+                h.fail("GeneticProgramming.search", "never-terminates-before-the-first-generation" if tracker.get_number_evaluations() == 0 else "never-terminates-although-new-individuals-are-created",
+                       f"{desc}: still running after 20 s with {tracker.get_number_evaluations()} evaluations made", {"initializer": ini_name, "pop": pop, "n": n})
+                return   # (one search that hangs is enough: the others would take their 20 s each)
+            except Exception as e:  # noqa: BLE001
+                h.fail("GeneticProgramming.search", "raises", f"{desc} raised {type(e).__name__}: {e}"[:300], {"initializer": ini_name, "pop": pop, "n": n})
+                continue
+            finally:
+                signal.alarm(0)
+                signal.signal(signal.SIGALRM, old)
+            h.seen(f"deep-minimum:{mind}:{ini_name}:{pop}:{n}")
+            h.count("deep-minimum-grammar-searches")
+            if not (n <= total < n + pop):
+                h.fail("GeneticProgramming.search", "stops-late-or-early", f"{desc}: {total} evaluations, expected {n} <= total < {n + pop}",
+                       {"initializer": ini_name, "pop": pop, "n": n})
+
+
 class CheckCapBudget(SearchBudget):
     """guard against non-termination: done after `cap` checks"""
 
@@ -470,5 +565,7 @@ def run(h: Harness):
     check_evaluation_budgets(h)
     check_target_and_anyof(h)
     check_parallel_evaluator(h)
+    check_parallel_evaluator_all_algorithms(h)
+    check_deep_minimum_grammars(h)
     check_injected_population(h)
     check_simplegp(h)
